@@ -77,8 +77,11 @@ def sigma_class(sg):
 
 
 def value_from_stat(method, st, V=None, nc=None):
-    """the last step: exact statistics -> float (or Fraction for the rational measures)"""
+    """the last step: exact statistics -> float (or Fraction for the rational measures);
+    None for an entry that is not demanded (one of its RDMs is degenerate: vanishing norm statistic)"""
     if method in COV_METHODS:
+        if not any(st['u']) or not any(st['v']):
+            return None
         u = np.array(st['u'], dtype=float)
         v = np.array(st['v'], dtype=float)
         Vf = np.array(V, dtype=float)
@@ -86,6 +89,8 @@ def value_from_stat(method, st, V=None, nc=None):
         xv = np.linalg.solve(Vf, v)
         return float(u @ xv / math.sqrt((u @ xu) * (v @ xv)))
     ab, aa, bb = st['ab'], st['aa'], st['bb']
+    if aa == 0 or bb == 0:
+        return None
     if method in RATIONAL_METHODS:
         return Fraction(ab, aa)
     if method == 'bures':
@@ -271,14 +276,24 @@ def compare_result(method, got, exp, tol, scales=None):
     if got.shape != (n1, n2):
         return 'shape', {'got_shape': list(got.shape), 'expected_shape': [n1, n2]}
     bad = []
+    partial = False
     for i in range(n1):
         for j in range(n2):
+            if exp[i][j] is None:          # not demanded
+                partial = True
+                continue
             g = float(got[i, j])
             sc = scales[i][j] if scales is not None else 1.0
             if not math.isfinite(g) or not _close(g, exp[i][j], tol, method, sc):
                 bad.append((i, j, g, float(exp[i][j])))
     if not bad:
         return None
+    if partial:
+        # a stack with a degenerate RDM: are the right values sitting in the wrong cells?
+        vals = [float(e) for row in exp for e in row if e is not None] + [0.0]
+        mis = all(math.isfinite(g) and any(abs(g - v) <= max(tol, 1e-12) for v in vals) for (_, _, g, _) in bad)
+        i, j, g, e = bad[0]
+        return ('misplaced' if mis else 'value'), {'entry': [i, j], 'got': g, 'expected': e, 'n_bad': len(bad)}
     if n1 == n2 and n1 > 1:
         tr_ok = all(_close(float(got[j, i]), exp[i][j], tol, method,
                            scales[i][j] if scales is not None else 1.0)
@@ -308,6 +323,7 @@ def check_value_record(rec, vcat, nc, variant=0):
     out = []
     neval = 0
     exp = expected_matrix(m, rec['res'], V, nc)
+    degenerate = any(e is None for row in exp for e in row)
     scales = None
     if m in BURES_METHODS:
         scales = [[(st['aa'] + st['bb']) / (nc * nc) if m == 'bures_metric' else 1.0 for st in row]
@@ -317,8 +333,10 @@ def check_value_record(rec, vcat, nc, variant=0):
     # 1. the array-form kernel must reproduce the exact statistics of the specification (trusted base)
     for i, x in enumerate(a):
         for j, y in enumerate(b):
-            k = array_kernel(m, x, y, sigma)
             e = exp[i][j]
+            if e is None:
+                continue
+            k = array_kernel(m, x, y, sigma)
             ktol = 1e-12 if m not in BURES_METHODS else RTOL_BURES * max(1.0, scales[i][j])
             if abs(k - float(e)) > ktol:
                 raise KernelMismatch(f'array kernel {m} disagrees with the TLA+ statistics on {x},{y},{sg}: '
@@ -336,7 +354,7 @@ def check_value_record(rec, vcat, nc, variant=0):
         try:
             got = call(m, A, B, sigma, entry)
         except Exception as e:  # totality: every admissible input must be accepted
-            out.append((f'{base}/raises/{type(e).__name__}',
+            out.append(((f'C03/a/{m}/stack-with-zero-norm-rdm' if degenerate else base) + f'/raises/{type(e).__name__}',
                         f'{m}: the call raises on an admissible input: {e!r}'[:300],
                         {**case0, 'flavour': fl, 'entry': entry}))
             continue
@@ -346,7 +364,9 @@ def check_value_record(rec, vcat, nc, variant=0):
             continue
         kind, detail = r
         key = f'{base}/{kind}'
-        if kind in ('shape', 'transposed'):
+        if degenerate and kind != 'shape':
+            key = f'C03/a/{m}/stack-with-zero-norm-rdm/{kind}'
+        elif kind in ('shape', 'transposed'):
             key = f'C03/a/{m}/{kind}'
         elif m in COV_METHODS and sgc == 'vector' and kind == 'value':
             # is it exactly the known fast-path deviation?  (diagnostic model, see fast_path_model)
@@ -356,7 +376,7 @@ def check_value_record(rec, vcat, nc, variant=0):
             key = f'{base}/fast-path-is-not-whitening' if fp else f'{base}/value'
         out.append((key, f'{m} ({"x".join(fl)} input, {entry}) differs from its definition: {detail}',
                     {**case0, 'flavour': fl, 'entry': entry, 'detail': detail,
-                     'expected': [[float(x) for x in row] for row in exp],
+                     'expected': [[None if x is None else float(x) for x in row] for row in exp],
                      'got': np.asarray(got, dtype=float).tolist()}))
     # 3. clause h: ndarray and RDMs input give the same answer; dispatcher = direct function
     ref = results.get((FLAVOURS[0], 'compare'))
@@ -731,7 +751,8 @@ SIGMAS = {
 # ------------------------------------------------------------------------------------------------
 # TLC configurations of MC_Compare / MC_Trace_Compare
 # ------------------------------------------------------------------------------------------------
-SPEC_INVARIANTS = ('CauchySchwarz', 'Symmetric', 'SelfOne', 'Pairing', 'VProps', 'VecIsDiag', 'Embeddable')
+SPEC_INVARIANTS = ('CauchySchwarz', 'Symmetric', 'SelfOne', 'Pairing', 'VProps', 'VecIsDiag', 'Embeddable',
+                   'UndemandedIsZeroNorm')
 SPEC_PROPERTIES = ('PermInvariant', 'SwapTransposes', 'MonoInvariant', 'LinInvariant')
 
 
@@ -741,12 +762,13 @@ def _set(xs):
 
 def cfg(nc, *, voff=1, vspan=3, vecs='AllVecs', vecsb=None, movevecs='AllVecs', shapes='Shapes11',
         methods=ALL_METHODS[:8], moves=('perm', 'swap'), monohi=4, scales=(2, 3), px=1, py=1,
-        moveconfigs='ConfigsAll', emitmod=1, moveemitmod=1):
+        moveconfigs='ConfigsAll', emitmod=1, moveemitmod=1, degenerate=False):
     lines = ['CONSTANTS', f'  NC = {nc}', f'  VOff = {voff}', f'  VSpan = {vspan}', f'  PX = {px}', f'  PY = {py}',
              f'  Vecs <- {vecs}', f'  VecsB <- {vecsb or vecs}', f'  MoveVecs <- {movevecs}', f'  Shapes <- {shapes}',
              f'  Methods = {_set(methods)}', '  Sigmas <- SigmaCat', f'  Moves = {_set(moves)}',
              '  MonoLo <- MonoLoDef', f'  MonoHi = {monohi}', f'  Scales = {_set(scales)}',
              '  Affines <- AffinesDef', '  Configs <- ConfigsAll', f'  MoveConfigs <- {moveconfigs}',
+             f'  Degenerate = {"TRUE" if degenerate else "FALSE"}',
              f'  EmitMod = {emitmod}', f'  MoveEmitMod = {moveemitmod}', 'INIT Init', 'NEXT Next']
     lines += [f'INVARIANT {i}' for i in SPEC_INVARIANTS] + ['INVARIANT Emit']
     lines += [f'PROPERTY {p}' for p in SPEC_PROPERTIES]
@@ -757,7 +779,7 @@ def cfg(nc, *, voff=1, vspan=3, vecs='AllVecs', vecsb=None, movevecs='AllVecs', 
 def trace_cfg(nc):
     lines = ['CONSTANTS', f'  NC = {nc}', '  Vecs <- Unused', '  VecsB <- Unused', '  MoveVecs <- Unused', '  Shapes <- Unused',
              '  Methods <- Unused', '  Sigmas <- NoSigmas', '  Moves <- Unused', '  MonoLo = 0', '  MonoHi = 0',
-             '  Scales <- Unused', '  Affines <- Unused', '  Configs <- Unused', '  MoveConfigs <- Unused',
+             '  Scales <- Unused', '  Affines <- Unused', '  Configs <- Unused', '  MoveConfigs <- Unused', '  Degenerate = FALSE',
              '  EmitMod = 1', '  MoveEmitMod = 1', 'SPECIFICATION TSpec',
              'INVARIANT Symmetric', 'INVARIANT SelfOne', 'INVARIANT Pairing', 'INVARIANT VProps',
              'CHECK_DEADLOCK FALSE']
@@ -779,7 +801,9 @@ def grid_size(nc, voff, vspan, methods, shape=(1, 1), nvecs=None, nsig=6, nvecsb
 def selftest_corrupted_vector(rec, vcat, nc):
     """S -> I: add 1 to one exact statistic of an emitted vector; the replay has to report it"""
     bad = copy.deepcopy(rec)
-    st = bad['res'][0][0]
+    # the first DEMANDED entry (both RDMs non-degenerate)
+    st = next(st for row in bad['res'] for st in row
+              if (('ab' in st and st['aa'] and st['bb']) or ('u' in st and any(st['u']) and any(st['v']))))
     if 'ab' in st:
         st['ab'] += 1
     else:
@@ -788,7 +812,7 @@ def selftest_corrupted_vector(rec, vcat, nc):
         _, out = check_value_record(bad, vcat, nc)
     except KernelMismatch:
         return True          # the kernel cross-check already notices the corrupted statistic
-    return any(k.endswith('/value') or k.endswith('fast-path-is-not-whitening') for k, _, _ in out)
+    return any(k.endswith(('/value', '/misplaced', 'fast-path-is-not-whitening')) for k, _, _ in out)
 
 
 def corrupt_trace(trace):
